@@ -16,7 +16,9 @@ import (
 )
 
 // IDs a case may use (index = the id in the Coq model).
-var IDPool = []string{"s1", "s2", "s3", "m1", "m2"}
+// The first five are ordinary; the rest are odd but legal: empty, very long, non-ASCII, equal to
+// values of other envelope fields.
+var IDPool = []string{"s1", "s2", "s3", "m1", "m2", "", strings.Repeat("long-id-", 40), "ünï-✓", "subscribe", "message"}
 
 func IDIndex(id string) int {
 	for i, s := range IDPool {
